@@ -28,6 +28,8 @@ def _cells(kind, n, j, sec):
             out.append("  lead %d.%d " % (r, j) if r % 2 else "trail %d.%d   " % (r, j))
         elif kind == "field":
             out.append("Page \\chpgn of {\\field{\\*\\fldinst NUMPAGES }}" if r % 2 == 0 else "x^2 >= \\alpha_%d" % r)
+        elif kind == "astral":
+            out.append(["\U0001F600 smile %d" % r, "math \U0001D6FC\U0001D6FD", "cjk \U00020000 ext-b", "plane16 \U0010FFFD", "bmp \u2265 \uffe5 \u8000"][(r + j) % 5])
         elif kind == "long":
             out.append(("word%d " % r) * (3 + 9 * ((r + j) % 4)))
         else:
@@ -79,6 +81,14 @@ def _section(c, sec):
     elif c["shape"] == "matrix" and n > 0:
         bk["text_format"] = [[fmt_vals[(r + j) % 4] for j in range(ncols)] for r in range(n)]
         bk["border_top"] = [["single" if (r + j) % 2 else "" for j in range(ncols)] for r in range(n)]
+    elif c["shape"] == "recycle" and n > 0:
+        # patterns narrower / shorter than the table whose size does not divide it (recycled with a partial repeat)
+        w = next((k for k in (2, 3, 4) if k < ncols and ncols % k), 1)
+        hh = next((k for k in (2, 3, 4) if k < n and n % k), 1)
+        bk["text_format"] = [[fmt_vals[j % 4] for j in range(w)]]
+        bk["border_bottom"] = [["", "single", "double", "dashed"][:w]] if w > 1 else "single"
+        bk["border_top"] = [["" if r % 2 else "single"] for r in range(hh)]
+        bk["border_left"] = [[["single", ""][(r + j) % 2] for j in range(w)] for r in range(hh)]
     else:
         bk["text_format"] = "b"
     if c["size"] == "half":
